@@ -69,7 +69,7 @@ type model struct {
 	ended         bool
 	// evidence
 	hitAttrLimit, overCapPath, updatedWhileFull, truncated, evictedEvents, evictedLinks bool
-	rawLen                                                                                 int
+	rawLen                                                                              int
 }
 
 func valid(kv attribute.KeyValue) bool {
